@@ -8,7 +8,11 @@ mkdir -p .cache evidence replays
 echo "[setup] regenerating Lean models from /repo"
 /venv/bin/python tools/py2lean/gen.py || echo "[setup] generation reported failures (checks will report them)"
 echo "[setup] lake build (all modules)"
-( cd lean && lake build 2>&1 | grep -v '^✔' | tail -20 )
+( cd lean && lake build 2>&1 | grep -v '^✔' | tail -20
+  # compiled line-protocol drivers (Mathlib-free models): every lean_exe target of the lakefile
+  for t in $(grep -A1 '^\[\[lean_exe\]\]' lakefile.toml | grep '^name' | sed 's/name = "\(.*\)"/\1/'); do
+    lake build "$t" 2>&1 | tail -1
+  done )
 echo "[setup] warming the Numba cache keyed by the source hash"
 /venv/bin/python harness/warm.py || true
 echo "[setup] done"
